@@ -37,7 +37,7 @@ def run(ctx):
     for st in (['ddmin', 'hybrid', 'ddmin'] if ctx.thorough else ['ddmin']):
         base.append(dict(text=grp, opts=['--strategy', st, '-j', '1'], cmd=[e2e.TOKPRED, rng.choice(['all', 'hash5']), 'check-sat'], env={}))
     variants = [dict(PYTHONHASHSEED='0'), dict(PYTHONHASHSEED='1', VERIF_CMD_DELAY='7', VERIF_WORKER_DELAY='3'),
-                dict(PYTHONHASHSEED='987654', VERIF_CMD_DELAY='25', VERIF_SLOW_CONSUMER='4')]
+                dict(PYTHONHASHSEED='987654', VERIF_CMD_DELAY='25', VERIF_SLOW_CONSUMER='4', VERIF_SLOW_ADOPT='40')]      # the last: a main process that is slow to react to a success
     jobs = []
     for j in base:
         for v in variants:
